@@ -153,7 +153,7 @@ def case_model(c):
         m["nowOff"] = int(b.utcoffset().total_seconds())
     today = c.get("today") or D.today()
     m["today"] = dtj(today)
-    tz = st.get("TIMEZONE", "UTC")
+    tz = st.get("TIMEZONE", "local")
     m["tz"] = tz
     m["tzPytz"] = pytz_knows(tz)
     if "DATE_ORDER" in st:
